@@ -84,14 +84,14 @@ func (r *request) executeInternal(next bool) {
 
 func (r *request) send(msg message.Message) {
 	_ = r.client.conn.Write(proxycore.SenderFunc(func(writer io.Writer) error {
-		return r.client.codec.EncodeFrame(frame.NewFrame(r.version, r.stream, msg), writer)
+		return r.client.getCodec().EncodeFrame(frame.NewFrame(r.version, r.stream, msg), writer)
 	}))
 }
 
 func (r *request) sendRaw(raw *frame.RawFrame) {
 	raw.Header.StreamId = r.stream
 	_ = r.client.conn.Write(proxycore.SenderFunc(func(writer io.Writer) error {
-		return r.client.codec.EncodeRawFrame(raw, writer)
+		return r.client.getCodec().EncodeRawFrame(raw, writer)
 	}))
 }
 
@@ -166,7 +166,7 @@ func (r *request) handleErrorResult(raw *frame.RawFrame) (retried bool) {
 	logger := r.client.proxy.logger
 	decision := ReturnError
 
-	frm, err := r.client.codec.ConvertFromRawFrame(raw)
+	frm, err := r.client.getCodec().ConvertFromRawFrame(raw)
 	if err != nil {
 		logger.Error("unable to decode error frame for retry decision", zap.Error(err))
 	} else {
